@@ -1,8 +1,10 @@
 pub mod hist;
+pub mod desc;
 use crate::Area;
 pub fn lookup(name: &str) -> Option<Box<dyn Area>> {
     match name {
         "hist" => Some(Box::new(hist::HistArea)),
+        "desc" => Some(Box::new(desc::DescArea)),
         _ => None,
     }
 }
